@@ -17,6 +17,7 @@ NAME = "histsim"
 PROPS = {"C15"}
 REF = None          # RefClient of this worker (pristine interpreter)
 H3_EVERY = 5
+RETAIN = 10       # results of the last ops kept alive and re-digested (H5)
 
 
 # ----------------------------------------------------------------- generation
@@ -260,6 +261,7 @@ def execute(trace, use_pristine=True):
     nontrivial = False
     elem_meshes = {}     # elem slot -> set of mesh digests it has been used on
     failed_objs = set()  # slots touched by a failed op
+    retained = []        # (op index, op, returned value, digest) of recent results
 
     def bump(d, k, n=1):
         d[k] = d.get(k, 0) + n
@@ -339,6 +341,9 @@ def execute(trace, use_pristine=True):
                                             "ref_hashseed": REF.hashseed})
                     break
             # ---- bookkeeping
+            if exc is None and val is not None:
+                retained.append((k, o["op"], val, _log_canon(res)))
+                del retained[:-RETAIN]
             used.update(refs)
             if "out" in o and exc is None:
                 W[o["out"]] = val
@@ -354,6 +359,21 @@ def execute(trace, use_pristine=True):
                         violation = viol("H3-action-at-a-distance", k, o,
                                          {"object": slot,
                                           "type": type(W[slot]).__name__})
+                        break
+                if violation:
+                    break
+                # ---- H5 results handed out earlier do not change later
+                for (k0, op0, v0, d0) in retained:
+                    try:
+                        d1 = _log_canon(C.canon(v0))
+                    except Exception as ex:
+                        d1 = "raises:" + type(ex).__name__
+                    if d1 != d0:
+                        # named after the operation that returned the value
+                        violation = viol("H5-returned-value-changed-later", k,
+                                         ops[k0], {"returned_by_op": k0,
+                                                   "noticed_after_op": k,
+                                                   "noticed_after": o["op"]})
                         break
                 if violation:
                     break
